@@ -104,6 +104,8 @@ func c02(c *core.Ctx, r *core.Report) {
 			return ""
 		}, "inject-table@(*component_definition.Property).Inject", injectRows)
 	}
+	smallModelCheck(c, r, "C02.R6", "inject-table", ro.PropertyInject, int64(listLen(c)))
+	smallModelCheck(c, r, "C02.R1", "exposer-table", ex, 2)
 	// ---- R7 bounded loops
 	c02Loops(c, r, []string{"container/factory", "container/support", "component_definition", "container/processors", "container"}, "C02.R7")
 }
